@@ -106,6 +106,16 @@ def build_cases(tier, seed):
         cases.append(('corpus', label, 'api', src, default))
         for ml, ms in C.mutants(label, src, rng, per):
             cases.append(('mutant', ml, 'api', ms, default))
+    # (2b) generated well-typed programs (the generators of the run-time checks) under several options, and
+    #      token-level mutants of them: the code generator must never meet a tree it asserts against
+    from hv import gen as G, fam_tt
+    ng = 3 if mini else 40 if quick else 600
+    for k in range(ng):
+        gsrc = G.generate(seed * 1009 + k, {'faults': 0.2})[0] if k % 3 else fam_tt.TTGen(seed * 1009 + k).program()
+        m, st, un = rng.choice([16, 16, 24, 32, 64]), rng.choice([500, 60, 5, 0, 2000]), rng.random() < 0.3
+        cases.append(('generated', 'gen%d' % k, 'api', gsrc, R.opts(m, st, un, rng.random() < 0.3)))
+        for ml, ms in C.mutants('gen%d' % k, gsrc, rng, 0 if mini else 4 if quick else 12):
+            cases.append(('mutant', ml, 'api', ms, default))
     # (3) every snippet of tests/test_typecheck.py, as is and with an entry point, with and without --lint
     for label, src, kind in tcs:
         for lint in (False, True):
